@@ -29,7 +29,10 @@ CHECKS = {
                         "not exercised. The hosted chain is an in-process HTTP server registered through Keeper.SetHostedBlockchains on the application's own keeper. "
                         "Stakes are laid out so that session membership is decidable without re-implementing selection (stakers of a chain at the session's first "
                         "block == SessionNodeCount, or the servicer not among them); worlds where the servicer joined a chain with SessionNodeCount+1 stakers at the "
-                        "session start are generated but membership is not asserted there. Nodes join and leave a chain by stake / edit-stake transactions (a begin-unstake waits for the session end, so it is not a mid-session change)."),
+                        "session start are generated but membership is not asserted there. Nodes join and leave a chain by stake / edit-stake transactions (a begin-unstake waits for the session end, so it is not a mid-session change). "
+                        "A second test (TestC35Sequence, same check) interleaves relays with chain progress: the node serves relays of a session (caching it), is jailed for downtime in a later block of the same "
+                        "session, must refuse every relay while jailed, and serves again after its unjail.",
+             also=[dict(group="relays", test="TestC35Sequence", quick=dict(checks=150, timeout=600), thorough=dict(checks=2500, shards=8, timeout=1500))]),
     "C34": c("relays", "TestC34", dict(checks=350, timeout=600), dict(checks=4000, shards=14, timeout=1500),
              technique="schedule exploration with a harness-owned deterministic scheduler: the build-tag hook pocketTypes.VerifYield parks every goroutine between relay "
                        "validation and proof storage and between reading and writing back the evidence; a rapid-drawn sequence of goroutine ids decides who runs next "
